@@ -318,6 +318,22 @@ let s_keygen g obs =
 (* ---- forced schedules (C03, C05, C07, C09) ---- *)
 let s_sched which g obs =
   if obs = "HUNG" then ("?", "bad:sched-hung") else
+  if g "kind" = "window" then begin
+    let (model, _pre, _post, _eui) = Hist.run_window g obs in
+    (* the oracle on the implementation's own output: one answer to the two copies, and the later unconfirmed
+       uplink is not answered with an ACK *)
+    let parts = String.split_on_char '|' obs in
+    let downs_of o = match Judge.split_obs o with Some (ds, _, _) -> List.map (fun dstr -> Util.bytes_of_hex (List.hd (String.split_on_char ':' dstr))) ds | None -> [] in
+    let ackbit raw = match raw with _ :: _ :: _ :: _ :: _ :: fctrl :: _ -> (Util.int_of_n fctrl / 32) land 1 = 1 | _ -> false in
+    let verdict = match parts with
+      | [o1; o2] ->
+        if List.length (downs_of o1) <> 1 then "bad:window-copies-not-answered-once"
+        else if not (List.for_all ackbit (downs_of o1)) then "bad:window-confirmed-uplink-answered-without-ACK"
+        else if List.exists ackbit (downs_of o2) then "bad:ACK-flag-repeated-on-answer-to-unconfirmed-uplink"
+        else "ok"
+      | _ -> "bad:window-observation-shape" in
+    (model, verdict)
+  end else
   let (model, pre, _post, eui) = Hist.run_sched g obs in
   (model, Judge.judge_sched which g obs pre eui)
 
